@@ -40,7 +40,8 @@ STATE ABSTRACTION (python attribute -> field of Fsm.fstate)
 
 Methods that are not translated must not touch the modelled state (scanned:
 no store to a modelled attribute, no *_trigger call, no call of an effectful
-translated method); their ast dump digests are printed in the header.
+translated method); their ast dump digests are printed in the header, and the
+three thread bodies _archive / _pipeline / _reload are PINNED by that digest.
 Anything else: Unsupported, exit 2.'''
 import ast
 import hashlib
@@ -103,6 +104,11 @@ INIT_REQUIRED = [
     'self.__doctest = doctest_',
 ]
 
+# the thread bodies handed to deferToThread are NOT translated: the model takes
+# them as steps that complete without touching the FSM object (assumption of
+# C10); they are pinned by the digest of their normalised source (ast.unparse)
+PINNED = {'_archive': 'da1cf24f3f1d398b', '_pipeline': '8c1366e685e0d85d', '_reload': 'c7b545a78e04cd59'}
+
 PRELUDE = '''From Coq Require Import List Bool Arith.
 From DV Require Import Gen.FsmTable Gen.PriorityGen Model.Fsm.
 Import ListNotations.
@@ -118,11 +124,47 @@ Definition fire_prior (fire_ : fstate -> trigger -> fstate * outcome) (s : fstat
   | None => (s, NoPrior)
   | Some p => match state_trigger p with None => (s, NoAttr) | Some t => fire_ s t end
   end.
+(* the ghost counter of the model: a completed reset() opens a new epoch *)
+Definition ghost_epoch (r : fstate * outcome) : fstate * outcome :=
+  match snd r with Ok => (new_epoch (fst r), Ok) | _ => r end.
 (* ---- translated methods ---- *)'''
+
+# Event.trigger of transitions over the generated table (Gen/FsmTable.v) with
+# the callbacks named there bound to the translated methods of the same name
+MACHINE = '''(* ---- the machine: the table of state.dot interpreted with the translated
+   callbacks (transitions.Machine: before callbacks, state change, after
+   callbacks; the only hand-written part is this interpreter loop, the same
+   text as [fire] of Model/Fsm.v) ---- *)
+Definition gen_run_cb (rec : fstate -> trigger -> fstate * outcome) (s : fstate) (c : callback)
+  : fstate * outcome :=
+  match c with
+%s  | Cb_fire t' => rec s t'
+  end.
+Fixpoint gen_run_cbs (rec : fstate -> trigger -> fstate * outcome) (s : fstate) (cs : list callback)
+  : fstate * outcome :=
+  match cs with
+  | [] => (s, Ok)
+  | c :: cs' => bind (gen_run_cb rec s c) (fun s => gen_run_cbs rec s cs')
+  end.
+Fixpoint gen_fire (fuel : nat) (s : fstate) (t : trigger) {struct fuel} : fstate * outcome :=
+  match fuel with
+  | 0 => (s, OutOfFuel)
+  | S f =>
+    match find_edge t (st s) with
+    | None => (s, Rejected)
+    | Some e =>
+      bind (gen_run_cbs (gen_fire f) s (e_before e)) (fun s =>
+      let s := if trigger_eqb t T_update then count_update s else s in
+      gen_run_cbs (gen_fire f) (set_st s (e_dst e)) (e_after e))
+    end
+  end.
+Definition gen_trigger (s : fstate) (t : trigger) := gen_fire FUEL s t.'''
 
 
 def sha(node):
-    return hashlib.sha256(ast.dump(node).encode()).hexdigest()[:16]
+    '''digest of the normalised source (ast.unparse: no comments, no layout;
+    the same under every python version, unlike ast.dump)'''
+    return hashlib.sha256(ast.unparse(node).encode()).hexdigest()[:16]
 
 
 def strip(body):
@@ -603,12 +645,25 @@ def main():
     emit('_archive_done', 'archive_done')
     for name in ('archive', 'load', 'navel_gaze', 'reload', 'start'):
         emit(name, name)
+    # -- the machine over the translated callbacks ---------------------------------------------------------
+    arms = ''
+    for cb in ('start', 'load', 'navel_gaze', 'save_prior_state', 'archive', 'reload', 'reset'):
+        m = info[cb]
+        if not m['raises'] or m['params']:
+            raise Unsupported('callback %s has an unexpected shape' % cb)
+        call = '%s %ss' % (m['gname'], 'rec ' if m['fires'] else '')
+        arms += '  | Cb_%s => %s\n' % (cb, 'ghost_epoch (%s)' % call if cb == 'reset' else call)
+    out.append(MACHINE % arms)
     # -- everything else must not touch the modelled state ------------------------------------------------
     left = sorted(set(meths) - used)
     out.append('(* not translated (checked not to touch the modelled state): %s *)'
                % ', '.join('%s sha256=%s' % (k, sha(meths[k])) for k in left))
     for kname in left:
         untouched(kname, meths[kname])
+    for kname, digest in sorted(PINNED.items()):
+        if kname not in meths or sha(meths[kname]) != digest:
+            raise Unsupported('pinned (untranslated) thread body %s changed: ast digest %s, pinned %s'
+                              % (kname, kname in meths and sha(meths[kname]), digest))
     arch = strip(meths['_archive'].body)
     if ast.unparse(arch[-1]) != 'return' or ast.unparse(arch[-2]) != 'dawgie.db.archive(self._archive_done)':
         raise Unsupported('_archive no longer ends with dawgie.db.archive(self._archive_done)')
